@@ -89,6 +89,12 @@ def _roles_of(cx, im, adt_path):
 
 
 def check(cx):
+    _env_wrapped = True
+    from . import c03
+    return _check_own(cx) + c03.envelopes(cx, ID)
+
+
+def _check_own(cx):
     F = cx.facts
     res = []
     table, ops = _tables(cx)
